@@ -75,6 +75,9 @@ func workerMain() {
 	out.Write(b)
 	out.WriteByte('\n')
 	out.Flush()
+	if os.Getenv("GOSYM_FORCE_RE") != "" {
+		interp.ForceRegexpModel = true
+	}
 	w := interp.NewWorker(p)
 	defer w.Close()
 	sc := bufio.NewScanner(os.Stdin)
@@ -115,6 +118,9 @@ func runMain(args []string) {
 	var ms runtime.MemStats
 	runtime.ReadMemStats(&ms)
 	fmt.Fprintf(os.Stderr, "loaded in %.1fs, live heap %d MB\n", p.LoadS, ms.HeapAlloc>>20)
+	if os.Getenv("GOSYM_FORCE_RE") != "" {
+		interp.ForceRegexpModel = true
+	}
 	t := &interp.Task{Harness: args[0], NSamples: 2}
 	for _, a := range args[1:] {
 		if a == "-panicviol" {
